@@ -46,32 +46,45 @@ def self_attr(e: ast.expr, base: str = "self") -> Optional[str]:
     return None
 
 
+ARRAY_MAKERS = ("asarray", "array", "zeros_like", "ones_like", "full", "broadcast_to", "zeros", "ones")
+
+
+def spec_model(tree, ci: ClassInfo):
+    """(stores of __init__ {attr: [values]}, {param: term}, {public property: private attribute it returns}) --
+    attributes are identified by role (what __init__ stores, what the property returns), not by spelling."""
+    from .c15 import init_attrs
+    _, ia, ip = init_attrs(tree, ci)
+    self_t = mk("self", ci.qual)
+    props: Dict[str, Optional[str]] = {}
+    for c in tree.mro(ci):
+        for name, f in c.methods.items():
+            if f.is_property and name not in props:
+                r = uncopy(VFG(tree, Model(tree)).apply_func(f, self_t, ci, [], {}, None, None))
+                props[name] = r.args[1] if r.kind == "attr" and r.args[0] is self_t else None
+    return ia, ip, props
+
+
 def array_kind_attrs(tree, ci: ClassInfo) -> Set[str]:
-    """Public attribute names whose stored value is an array: assigned from jnp.asarray(...)-like calls in
-    __init__, or an __init__ parameter annotated chex.Array stored as self._<name>."""
-    out: Set[str] = set()
+    """Public property names whose stored value is an array: built by a jnp.asarray(...)-like call in __init__, or
+    an __init__ parameter annotated as an array and stored as it is."""
+    ia, ip, props = spec_model(tree, ci)
+    annotated: Set[str] = set()
     for c in tree.mro(ci):
         init = c.methods.get("__init__")
-        if init is None:
+        if init is not None:
+            for a in init.node.args.args[1:]:
+                if a.annotation is not None and ast.unparse(a.annotation).split(".")[-1] in ("Array", "ndarray", "ArrayNumpy"):
+                    annotated.add(a.arg)
+    out: Set[str] = set()
+    for pub, priv in props.items():
+        if priv is None or priv not in ia:
             continue
-        arrayish: Set[str] = set()
-        for a in init.node.args.args[1:]:
-            if a.annotation is not None and ast.unparse(a.annotation).split(".")[-1] in ("Array", "ndarray", "ArrayNumpy"):
-                arrayish.add(a.arg)
-        for st in ast.walk(init.node):
-            if isinstance(st, ast.Assign) and isinstance(st.value, ast.Call):
-                q = tree.resolve_expr(c.module, st.value.func) or ""
-                if q.startswith("jax.numpy.") or q.startswith("numpy."):
-                    if q.split(".")[-1] in ("asarray", "array", "zeros_like", "ones_like", "full", "broadcast_to"):
-                        for t in st.targets:
-                            if isinstance(t, ast.Name):
-                                arrayish.add(t.id)
-        for st in ast.walk(init.node):
-            if isinstance(st, ast.Assign):
-                for t in st.targets:
-                    nm = self_attr(t)
-                    if nm and nm.startswith("_") and isinstance(st.value, ast.Name) and st.value.id in arrayish:
-                        out.add(nm[1:])
+        v = uncopy(ia[priv][-1])
+        n = ext_name(v) or ""
+        if (n.startswith("jax.numpy.") or n.startswith("numpy.")) and n.split(".")[-1] in ARRAY_MAKERS:
+            out.add(pub)
+        elif v.kind == "param" and v.args[1] in annotated:
+            out.add(pub)
     return out
 
 
@@ -143,38 +156,36 @@ def check(tier: str) -> Result:
         a = init.node.args
         res.add("C16.R1", init.loc(), f"specs.{n}.__init__", "no *args / **kwargs in the constructor", a.vararg is None and a.kwarg is None,
                 f"parameters {params}")
-        stored: Set[str] = set()
-        for c in tree.mro(ci):
-            i2 = c.methods.get("__init__")
-            if i2 is not None:
-                for st in ast.walk(i2.node):
-                    if isinstance(st, ast.Assign):
-                        for t in st.targets:
-                            nm = self_attr(t)
-                            if nm:
-                                stored.add(nm)
+        ia, ip, props = spec_model(tree, ci)
+        self_c = mk("self", ci.qual)
         for p in params:
             prop = tree.find_method(ci, p)
             ok = False
             why = "no readable attribute of that name"
             if prop is not None and prop.is_property:
-                rets = returns_of(prop)
-                ok = len(rets) == 1 and self_attr(rets[0]) == "_" + p and ("_" + p) in stored
-                why = f"property returns {ast.unparse(rets[0]) if rets else None}; self._{p} stored by __init__: {('_' + p) in stored}"
-            res.add("C16.R1", (prop or init).loc(), f"specs.{n}", f"constructor parameter '{p}' is readable back as self.{p} -> self._{p}", ok, why)
+                priv = props.get(p)
+                stored_vals = ia.get(priv, []) if priv is not None else []
+                from_param = bool(stored_vals) and p in ip and contains(uncopy(stored_vals[-1]), ip[p])
+                ok = priv is not None and from_param
+                why = f"property returns self.{priv}; __init__ stores it from parameter '{p}': {from_param}"
+            res.add("C16.R1", (prop or init).loc(), f"specs.{n}", f"constructor parameter '{p}' is readable back as self.{p} (the attribute __init__ stored from it)", ok, why)
         red = ci.methods.get("__reduce__") or tree.find_method(ci, "__reduce__")
         ok = False
         why = "no __reduce__"
         if red is not None:
-            rets = returns_of(red)
             if red.cls is not ci:
                 why = f"inherits {red.cls.name}.__reduce__, which rebuilds a {red.cls.name}"
-            elif len(rets) == 1 and isinstance(rets[0], ast.Tuple) and len(rets[0].elts) == 2 and isinstance(rets[0].elts[1], ast.Tuple):
-                cls_e, args_e = rets[0].elts
-                names = [self_attr(x) for x in args_e.elts]
-                ok = isinstance(cls_e, ast.Name) and cls_e.id == n and names == ["_" + p for p in params]
-                why = f"returns ({ast.unparse(cls_e)}, {names}); constructor order {params}"
-        res.add("C16.R2", (red or init).loc(), f"specs.{n}.__reduce__", "__reduce__ = (OwnClass, (self._p...)) in constructor order", ok, why)
+            else:
+                rr = uncopy(VFG(tree, Model(tree)).apply_func(red, self_c, ci, [], {}, None, None))
+                if rr.kind == "tuple" and len(rr.args[0]) == 2 and rr.args[0][1].kind == "tuple":
+                    cls_t, args_t = rr.args[0]
+                    want = [mk("attr", self_c, props.get(p) or ("_" + p)) for p in params]
+                    got = [uncopy(x) for x in args_t.args[0]]
+                    ok = cls_t.kind == "cls" and cls_t.args[0] == ci.qual and got == want
+                    why = f"returns ({txt(cls_t, 2, 40)}, {[txt(x, 2, 30) for x in got]}); constructor order {params}"
+                else:
+                    why = f"returns {txt(rr, 4, 120)}"
+        res.add("C16.R2", (red or init).loc(), f"specs.{n}.__reduce__", "__reduce__ = (OwnClass, (stored value of each parameter...)) in constructor order", ok, why)
         eq = ci.methods.get("__eq__")
         if eq is None:
             inh = tree.find_method(ci, "__eq__")
@@ -194,33 +205,52 @@ def check(tier: str) -> Result:
     # ------------------------------------------------------------------ R4 validate
     av = classes["Array"].methods.get("validate")
     fv = classes["Array"].methods.get("_fail_validation")
-    if av is None or fv is None:
-        raise AnalysisError("Array.validate/_fail_validation not found")
-    raises = any(isinstance(n, ast.Raise) for n in fv.node.body) or any(isinstance(n, ast.Raise) for n in ast.walk(fv.node))
-    res.add("C16.R4", fv.loc(), "specs.Array._fail_validation", "the failure helper raises unconditionally",
-            raises and isinstance(fv.node.body[-1], ast.Raise), "last statement is raise" if raises else "no raise")
+    if av is None:
+        raise AnalysisError("Array.validate not found")
+    from ..normal import disjuncts
+    from ..terms import NORETURN
+    from .common import raise_exits
+    if fv is not None:
+        vf = VFG(tree, Model(tree))
+        rf = vf.apply_func(fv, mk("self", classes["Array"].qual), classes["Array"], [mk("param", fv.qual, p) for p in fv.params[1:]], {}, None, None)
+        res.add("C16.R4", fv.loc(), "specs.Array._fail_validation", "the failure helper raises unconditionally", rf is NORETURN,
+                "every path ends in raise" if rf is NORETURN else f"can return {txt(rf, 3, 60)}")
+
+    _, _, aprops = spec_model(tree, classes["BoundedArray"])
+    apub = {priv: pub for pub, priv in aprops.items() if priv is not None}
+
+    def pubname(a: str) -> str:
+        return apub.get(a, a.lstrip("_"))
+
+    def mismatch_rejections(vfg_, self_, val_):
+        """{attr: rejected?} -- a raise is reached under `value.attr != self.attr` with nothing but the other
+        (non-rejecting) mismatch tests in front of it."""
+        out = {}
+        for fn, node, path, _ in raise_exits(vfg_):
+            atoms = []
+            for t, pol, pf in path:
+                a = None
+                if t.kind == "cmp" and t.args[0] in ("!=", "=="):
+                    sides = [strip_cast(t.args[1]), strip_cast(t.args[2])]
+                    names = {pubname(x.args[1]) for x in sides if x.kind == "attr"}
+                    if len(names) == 1 and any(x.kind == "attr" and x.args[0] is self_ for x in sides) and \
+                            any(x.kind == "attr" and x.args[0] is not self_ and contains(x, val_) for x in sides):
+                        a = (names.pop(), (t.args[0] == "!=") == pol)   # True: this path has value.attr != self.attr
+                atoms.append(a)
+            for i, a in enumerate(atoms):
+                if a is not None and a[1] and all(b is not None and not b[1] for b in atoms[:i]):
+                    out[a[0]] = True
+        return out
+
     vv = VFG(tree, Model(tree))
     arr_c = classes["Array"]
     self_a = mk("self", arr_c.qual)
     val = mk("param", av.qual, av.params[1])
     vv.apply_func(av, self_a, arr_c, [val], {}, None, None)
-    tests = {}
-    for e in vv.events:
-        if e.kind == "py_branch" and e.name == "if" and e.func is av and isinstance(e.node, ast.If):
-            t = uncopy(e.target)
-            fails = any(isinstance(x, ast.Call) and self_attr(x.func) == "_fail_validation" for st in e.node.body for x in ast.walk(st)) or \
-                any(isinstance(st, ast.Raise) for st in e.node.body)
-            if t.kind == "cmp" and t.args[0] in ("!=", "=="):
-                sides = [t.args[1], t.args[2]]
-                names = set()
-                for x in sides:
-                    if x.kind == "attr":
-                        names.add(x.args[1].lstrip("_"))
-                if len(names) == 1 and any(x.kind == "attr" and x.args[0] is self_a for x in sides) and any(x.kind == "attr" and contains(x, val) for x in sides):
-                    tests[names.pop()] = (t.args[0], fails)
+    rej = mismatch_rejections(vv, self_a, val)
     for attr in ("shape", "dtype"):
-        t = tests.get(attr)
-        res.add("C16.R4", av.loc(), "specs.Array.validate", f"rejects when value.{attr} != self.{attr}", t == ("!=", True), f"test {t}")
+        res.add("C16.R4", av.loc(), "specs.Array.validate", f"rejects when value.{attr} != self.{attr}", bool(rej.get(attr)),
+                "a raise is reached under that test" if rej.get(attr) else f"no raise is reached under value.{attr} != self.{attr} (rejections found: {sorted(rej)})")
     bv = classes["BoundedArray"].methods.get("validate")
     if bv is None:
         raise AnalysisError("BoundedArray.validate not found")
@@ -229,18 +259,18 @@ def check(tier: str) -> Result:
     self_b = mk("self", b_c.qual)
     valb = mk("param", bv.qual, bv.params[1])
     vb.apply_func(bv, self_b, b_c, [valb], {}, None, None)
-    sup = any(e.kind == "py_branch" and e.func is av for e in vb.events)
-    res.add("C16.R4", bv.loc(), "specs.BoundedArray.validate", "runs the parent shape/dtype validation first", sup, "Array.validate is executed" if sup else "parent validation skipped")
+    rejb = mismatch_rejections(vb, self_b, valb)
+    sup = bool(rejb.get("shape")) and bool(rejb.get("dtype"))
+    res.add("C16.R4", bv.loc(), "specs.BoundedArray.validate", "runs the parent shape/dtype validation first", sup,
+            "shape and dtype mismatches are rejected on the way" if sup else f"parent validation skipped (rejections reached: {sorted(rejb)})")
     found = {}
     fails = is_or = False
-    from ..normal import disjuncts
-    for e in vb.events:
-        if e.kind == "py_branch" and e.name == "if" and e.func is bv and isinstance(e.node, ast.If):
-            t = uncopy(e.target)
+    for fn, node, path, _ in raise_exits(vb):
+        for t, pol, pf in path:
+            if pf is not bv or not pol:
+                continue
             ds = disjuncts(t)
-            fails = any(isinstance(x, ast.Call) and self_attr(x.func) == "_fail_validation" for st in e.node.body for x in ast.walk(st)) or \
-                any(isinstance(st, ast.Raise) for st in e.node.body)
-            is_or = len(ds) == 2
+            got = {}
             for d in ds:
                 d0 = strip_cast(d)
                 red = ext_name(d0) in ("jax.numpy.any", "numpy.any", "builtins.any")
@@ -249,30 +279,50 @@ def check(tier: str) -> Result:
                     op, a, b = c.args
                     bound = None
                     for side, other in ((b, a), (a, b)):
-                        if side.kind == "attr" and side.args[0] is self_b and side.args[1].lstrip("_") in ("minimum", "maximum") and contains(other, valb):
-                            bound = side.args[1].lstrip("_")
+                        if side.kind == "attr" and side.args[0] is self_b and pubname(side.args[1]) in ("minimum", "maximum") and contains(other, valb):
+                            bound = pubname(side.args[1])
                             if side is a:  # bound written on the left: normalise to `value OP bound`
                                 op = {"<": ">", ">": "<", "<=": ">=", ">=": "<="}[op]
                     if bound:
-                        found[bound] = (op, red)
+                        got[bound] = (op, red)
+            if got:
+                found, fails, is_or = got, True, len(ds) == 2
     res.add("C16.R4", bv.loc(), "specs.BoundedArray.validate", "raises iff any(value < minimum) or any(value > maximum) (inclusive bounds)",
             found.get("minimum") == ("<", True) and found.get("maximum") == (">", True) and fails and is_or,
             f"comparators {found}; joined by or: {is_or}; leads to failure: {fails}")
     # ------------------------------------------------------------------ R5 generate / nested spec
-    binit = classes["BoundedArray"].methods["__init__"]
-    ctor = None
-    for st in ast.walk(binit.node):
-        if isinstance(st, ast.Assign) and any(self_attr(t) == "_constructor" for t in st.targets) and isinstance(st.value, ast.Lambda):
-            ctor = st.value.body
-    ok = isinstance(ctor, ast.Call) and ast.unparse(ctor.func).split(".")[-1] == "full" and len(ctor.args) >= 2 and \
-        isinstance(ctor.args[1], ast.Name) and ctor.args[1].id in ("minimum", "maximum")
-    res.add("C16.R5", binit.loc(), "specs.BoundedArray.__init__", "generate_value of a bounded spec is filled from one of its bounds", bool(ok),
-            ast.unparse(ctor) if ctor is not None else "no constructor lambda")
-    vfg = VFG(tree, Model(tree))
     sp = classes["Spec"]
+    sinit = sp.methods.get("__init__")
+    if sinit is None:
+        raise AnalysisError("Spec.__init__ not found")
     self_t = mk("self", sp.qual)
-    specs_t = mk("attr", self_t, "_specs")
-    ctor_t = mk("attr", self_t, "_constructor")
+    vs0 = VFG(tree, Model(tree))
+    cparam, nparam = mk("param", sinit.qual, sinit.params[1]), mk("param", sinit.qual, sinit.params[2])
+    kwspecs = mk("param", sinit.qual, sinit.node.args.kwarg.arg if sinit.node.args.kwarg else "specs")
+    vs0.apply_func(sinit, self_t, sp, [cparam, nparam], {"**": kwspecs}, None, None)
+    st0 = {}
+    for e in vs0.events:
+        if e.kind == "store_attr" and e.target is self_t:
+            st0.setdefault(e.name, []).append(uncopy(e.value))
+    c_names = [k for k, v in st0.items() if v[-1] is cparam]
+    s_names = [k for k, v in st0.items() if v[-1] is kwspecs and not k.startswith("<")]
+    if len(c_names) != 1 or len(s_names) != 1:
+        raise AnalysisError(f"Spec.__init__: constructor stored in {c_names}, child specs stored in {s_names} (expected one attribute each)")
+    C_ATTR, S_ATTR = c_names[0], s_names[0]
+    binit = classes["BoundedArray"].methods["__init__"]
+    bia, bip, _ = spec_model(tree, classes["BoundedArray"])
+    ok = False
+    why = "no constructor function stored"
+    cands = [x for x in bia.get(C_ATTR, []) if x.kind == "fn"]
+    if cands:
+        made = uncopy(VFG(tree, Model(tree)).apply(cands[-1], [], {}, None, None))
+        fill = made.args[1][1] if ext_name(made) in ("jax.numpy.full", "numpy.full") and len(made.args[1]) >= 2 else dict(made.args[2]).get("fill_value") if made.kind == "call" else None
+        ok = fill is not None and (contains(fill, bip["minimum"]) or contains(fill, bip["maximum"]))
+        why = txt(made, 4, 120)
+    res.add("C16.R5", binit.loc(), "specs.BoundedArray.__init__", "generate_value of a bounded spec is filled from one of its bounds", bool(ok), why)
+    vfg = VFG(tree, Model(tree))
+    specs_t = mk("attr", self_t, S_ATTR)
+    ctor_t = mk("attr", self_t, C_ATTR)
     gv = sp.methods.get("generate_value")
     r = uncopy(vfg.apply_func(gv, self_t, sp, [], {}, None, None)) if gv else NONE
     ok = False
@@ -312,7 +362,7 @@ def check(tier: str) -> Result:
     oth = mk("param", eq.qual, eq.params[1])
     r = uncopy(vfg.apply_func(eq, self_t, sp, [oth], {}, None, None))
     lv = [x for x in (r.args[0] if r.kind == "phi" else (r,)) if not (x.kind == "ext" and x.args[0].endswith("NotImplemented"))]
-    ok = len(lv) == 1 and contains(lv[0], specs_t) and contains(lv[0], mk("attr", oth, "_specs"))
+    ok = len(lv) == 1 and contains(lv[0], specs_t) and contains(lv[0], mk("attr", oth, S_ATTR))
     res.add("C16.R5", eq.loc(), "specs.Spec.__eq__", "nested specs are equal exactly when their children (self._specs, other._specs) are", ok, txt(r, 6, 200))
     # ------------------------------------------------------------------ R6 conversions
     n_conv = conversion_obligations(res, tree, "C16.R6")
@@ -451,12 +501,17 @@ def eq_facts_vfg(tree, ci: ClassInfo, eq: FuncInfo):
                     guard = n.args[1][1].args[0].split(".")[-1]
     compared: Dict[str, bool] = {}
 
+    _, _, props = spec_model(tree, ci)
+    pub_of = {priv: pub for pub, priv in props.items() if priv is not None}
+
     def pair(a: T, b: T):
+        """public name of the attribute compared on both operands (private storage mapped back through the property)"""
         for x, y in ((a, b), (b, a)):
             x0, y0 = strip_cast(x), strip_cast(y)
-            if x0.kind == "attr" and x0.args[0] is self_t and y0.kind == "attr" and y0.args[0] is other \
-                    and x0.args[1].lstrip("_") == y0.args[1].lstrip("_"):
-                return x0.args[1].lstrip("_")
+            if x0.kind == "attr" and x0.args[0] is self_t and y0.kind == "attr" and y0.args[0] is other:
+                nx, ny = pub_of.get(x0.args[1], x0.args[1]), pub_of.get(y0.args[1], y0.args[1])
+                if nx == ny:
+                    return nx
         return None
 
     def walk(t: T, truth_ctx: bool):
@@ -498,4 +553,9 @@ def eq_facts_vfg(tree, ci: ClassInfo, eq: FuncInfo):
 
     for a in alts:
         walk(a, True)
+    # guard-clause form: `if not (self.p == other.p): return False` -- the test of every python branch of __eq__
+    # itself is a truth-value use of its comparisons
+    for e in v.events:
+        if e.kind == "py_branch" and e.func is eq and e.target is not None:
+            walk(uncopy(e.target), True)
     return compared, guard
